@@ -176,6 +176,7 @@ ROUND11 = {
 }
 
 ROUND12 = {
+ "C09": "In every second SIGKILL case the sidecar runs in file mode (--config.file) and the restarted process finds a Prometheus that takes 1.5 s to reload: the first answer of its API must already show the resumed assignment.",
  "C10": "One check in four also polls /runtimeinfo/ while the head-series query (Prometheus' TSDB API) fails: an answer, if any, must be true about idleness.",
  "C12": "Plus 4 cases with a scrape_timeout of 1.9 s / 2.5 s and a target that answers completely after 1.3 s / 2.2 s: a delivery that breaks off before the configured timeout has passed is a violation.",
  "C17": "Job names include two that differ in case only (ja, JA).",
